@@ -45,6 +45,7 @@ Inductive hcond : Type :=
 | CTruthy (e : hexpr)                       (* if <e>: *)
 | CIsAscii (e : hexpr)                      (* <e>.isascii() *)
 | CIsDigit (e : hexpr)                      (* <e>.isdigit() *)
+| CLenLe (e : hexpr) (n : Z)                (* len(<e>) <= n *)
 | CDone (attr : string)                     (* connection.future.<attr>.done() *)
 | CNot (c : hcond)
 | CAnd (a b : hcond)
@@ -129,6 +130,7 @@ Fixpoint hcond_eqb (a b : hcond) : bool :=
   | CTruthy e, CTruthy e' => hexpr_eqb e e'
   | CIsAscii e, CIsAscii e' => hexpr_eqb e e'
   | CIsDigit e, CIsDigit e' => hexpr_eqb e e'
+  | CLenLe e n, CLenLe e' n' => hexpr_eqb e e' && Z.eqb n n'
   | CDone x, CDone y => String.eqb x y
   | CNot x, CNot y => hcond_eqb x y
   | CAnd x1 x2, CAnd y1 y2 => hcond_eqb x1 y1 && hcond_eqb x2 y2
